@@ -1,4 +1,5 @@
 import Proofs.Machine.BodyOrder
+import Proofs.Machine.HunkHeaders
 /-!
 Whole-run text of a hunk line (C01): the one row that shows a line of a unified hunk carries the
 kind its marker column says and the text `prepare` gives (marker column removed or kept as
@@ -219,5 +220,77 @@ theorem run_hunk_line_row {cfg : Cfg} {pre post : List L} {l : L} {mi m : M}
         simp; omega
       rw [c1, c3]
       simp [expectedRow_src]
+
+/-- **A hunk line is shown exactly once — unified and combined diffs.** In any hunk state of a
+git diff (unified, or combined with any number of parents, outside conflict regions), a line
+that can belong to a hunk body (empty, or starting with a blank, `+`, `-` or `\`; not a commit line,
+not a 40-hex `Subproject commit` line, not opening a conflict region) has exactly one row of kind
+minus / plus / zero / other in delta's output, whatever precedes and follows it. -/
+theorem run_hunk_line_exactly_once_any {cfg : Cfg} {pre post : List L} {l : L} {mi m : M}
+    (hmc : ∀ x ∈ pre ++ l :: post, startsWith x.text Generated.Markers.mcBegin = false)
+    (ei : runFrom cfg {} pre = .ok mi) (hsrc : mi.source = .gitDiff) (hst : isHunkState mi.st = true)
+    (hb : HunkBody l) (hsub : l.submodule = none) (e : run cfg (pre ++ l :: post) = .ok m) :
+    ((m.out.filter (fun r => isBody r.kind)).map (·.src)).count pre.length = 1 := by
+  have hout := (run_spec e).2
+  unfold run at e
+  split at e
+  · cases e
+  · rename_i m1 e1
+    rw [runFrom_append, ei] at e1
+    simp only [runFrom] at e1
+    split at e1
+    · cases e1
+    · rename_i m2 e2
+      have hmc_pre : ∀ x ∈ pre, startsWith x.text Generated.Markers.mcBegin = false :=
+        fun x hx => hmc x (List.mem_append_left _ hx)
+      have hmc_l : startsWith l.text Generated.Markers.mcBegin = false :=
+        hmc l (List.mem_append_right _ (List.mem_cons_self ..))
+      have hmc_post : ∀ x ∈ post, startsWith x.text Generated.Markers.mcBegin = false :=
+        fun x hx => hmc x (List.mem_append_right _ (List.mem_cons_of_mem _ hx))
+      have h0 : Inc ({} : M) := ⟨by simp [bodySrcs, bodyTL, timeline], by simp [bodySrcs, bodyTL, timeline]⟩
+      obtain ⟨hinc, hnomc, gi⟩ := runFrom_inc pre ei hmc_pre rfl good_init h0
+      have hni : mi.n = pre.length := by
+        have := (runFrom_spec pre ei good_init).2.2.2
+        simpa using this
+      have hstep : ∃ b m2', handleHunkLine cfg mi l = .ok (b, m2') ∧ m2 = { m2' with n := m2'.n + 1 } := by
+        unfold step at e2
+        have hinit : stepInit mi l = mi := by unfold stepInit; simp [hsrc]
+        rw [hinit, hunk_body_chain cfg mi l (by rw [hsrc]; decide) hst hb hsub hmc_l] at e2
+        cases hh : handleHunkLine cfg mi l with
+        | error err => simp [hh] at e2
+        | ok p =>
+          obtain ⟨b, m2'⟩ := p
+          simp only [hh] at e2
+          cases e2
+          exact ⟨b, m2', rfl, rfl⟩
+      obtain ⟨b, m2', hh, hm2⟩ := hstep
+      obtain ⟨_, hn2, hnomc2, r, hbody, hrsrc, _⟩ := handleHunkLine_body hst gi hh
+      have g2 := (step_spec e2 gi).1
+      have hb2 : bodySrcs m2 = bodySrcs mi ++ [pre.length] := by
+        subst hm2
+        show (bodyTL m2').map (·.src) = _
+        rw [hbody]; simp [bodySrcs, hrsrc, hni]
+      have hnomc2' : isMergeConflict m2.st = false := by subst hm2; exact hnomc2
+      obtain ⟨more, hm, hge⟩ := runFrom_body_ext post e1 hmc_post hnomc2' g2
+      have hn2' : m2.n = pre.length + 1 := by subst hm2; show m2'.n + 1 = _; rw [hn2, hni]
+      have hfin : bodyTL m = bodyTL m1 := tailOps_body _ e
+      have hsrcs : (m.out.filter (fun r => isBody r.kind)).map (·.src) = bodySrcs mi ++ [pre.length] ++ more := by
+        rw [← hout]
+        show bodySrcs m = _
+        have hmm : bodySrcs m = bodySrcs m1 := by unfold bodySrcs; rw [hfin]
+        rw [hmm, hm, hb2]
+      rw [hsrcs, List.count_append, List.count_append]
+      have c1 : (bodySrcs mi).count pre.length = 0 := by
+        rw [List.count_eq_zero]
+        intro hmem
+        have := hinc.below _ hmem
+        omega
+      have c3 : more.count pre.length = 0 := by
+        rw [List.count_eq_zero]
+        intro hmem
+        have := hge _ hmem
+        rw [hn2'] at this
+        omega
+      rw [c1, c3]; simp
 
 end Machine
